@@ -279,3 +279,58 @@ def P_obs_before(r, leaf, k):
                 return nodes[prev - 1]["obs"] if prev else nodes[n - 1]["obs"]
         prev = n
     return nodes[path[-1] - 1]["obs"]
+
+
+def seed_groups(results, seeds=(0, 1, 7), per_tree=3, rng=None, workdir="/tmp"):
+    """sampled complete histories, each replayed in one subprocess per hash seed"""
+    import json as _json
+    import os as _os
+    import subprocess
+    rng = rng or random.Random(0)
+    jobs = []
+    for r in results:
+        leaves = sorted(r["fins"])
+        if not leaves:
+            continue
+        for n in (leaves if len(leaves) <= per_tree else rng.sample(leaves, per_tree)):
+            jobs.append({"def": r["d"], "sched": P.node_schedule(r, n), "lang": r["lang"], "lazy": bool(r["env"].get("lazy"))})
+    if not jobs:
+        return [], []
+    script = _os.path.join(_os.path.dirname(_os.path.abspath(__file__)), "seedrun.py")
+    nchunk = max(1, min(16 // len(seeds), len(jobs)))
+    chunks = [jobs[k::nchunk] for k in range(nchunk)]
+    procs = []
+    for k, ch in enumerate(chunks):
+        path = _os.path.join(workdir, "seedjobs_%d.json" % k)
+        with open(path, "w") as f:
+            _json.dump(ch, f)
+        for sd in seeds:
+            env = dict(_os.environ, PYTHONHASHSEED=str(sd))
+            procs.append((sd, k, subprocess.Popen(["/venv/bin/python", script, path], env=env, stdout=subprocess.PIPE,
+                                                  stderr=subprocess.PIPE, text=True)))
+    outs, errs = {sd: [None] * len(jobs) for sd in seeds}, []
+    for sd, k, p in procs:
+        o, e = p.communicate(timeout=1500)
+        try:
+            res = _json.loads(o)
+            for idx, f in zip(range(k, len(jobs), nchunk), res):
+                outs[sd][idx] = f
+        except Exception:
+            errs.append("seed %s chunk %s: rc=%s %s" % (sd, k, p.returncode, e[-800:]))
+    groups = []
+    if errs:
+        return groups, errs
+    for i, j in enumerate(jobs):
+        ms = []
+        bad = False
+        for sd in seeds:
+            f = outs[sd][i]
+            if "error" in f:
+                bad = True
+                errs.append(f["error"])
+                break
+            ms.append({"role": "seed%s" % sd, "fin": f, "sched": j["sched"]})
+        if not bad:
+            groups.append({"kind": "seed", "def": X.tla_def(j["def"]), "members": ms,
+                           "replay": {"def": j["def"], "lang": j["lang"], "schedule": j["sched"]}})
+    return groups, errs
